@@ -181,7 +181,9 @@ def run_inject(case):
     elif site == "loadData":
         patches.append(mock.patch.object(P.MCNP_Problem, "_MCNP_Problem__load_data_inputs_to_object", boom))
     elif site == "blankModifiers":
-        patches.append(mock.patch.object(montepy.data_inputs.volume.Volume, "link_to_problem", boom))
+        # UniverseInput.push_to_cells is called from __setup_blank_cell_modifiers only (and always: `_universe` is in
+        # inputs_to_always_update)
+        patches.append(mock.patch.object(montepy.data_inputs.universe_input.UniverseInput, "push_to_cells", boom))
     for p in patches:
         p.start()
     try:
@@ -210,6 +212,8 @@ def inject_model_case(site, name):
 
 
 def check_inject(chk, drv, classes):
+    # StopIteration raised inside a generator is turned into RuntimeError by Python itself (PEP 479): not injected
+    classes = [c for c in classes if c != "StopIteration"]
     cases = [{"site": s, "cls": c} for s in INJECT_SITES for c in classes if not (s == "treeNone" and c != "ParsingError")]
     impl = pmap(run_inject, cases, chunksize=4)
     table = {(row["region"].split(".")[-1], row["cls"]): row for row in drv.batch([{"table": True}])[0]}
